@@ -134,7 +134,7 @@ def _instances(trace, meta):
             continue
         if e["a"] == "emit":
             o = meta["opts"][l - 1]
-            base = {"k": e["kind"], "dd": e["dd"], "wrap": o["wrap"], "inl": e["inline"], "kwo": e["kwonly"], "ft": e["ftype"],
+            base = {"k": e["kind"], "dd": e["dd"], "wrap": o["wrap"], "xo": o.get("xo", ""), "inl": e["inline"], "kwo": e["kwonly"], "ft": e["ftype"],
                     "ind": o["indent"], "hop": hop + 1, "prev": prev, "tb": meta["table"], "n": len(cur["params"]),
                     "ret": micro_ret(cur["ret"]), "step": "emit"}
 
@@ -220,7 +220,7 @@ def _instances(trace, meta):
         ee, o = art
         k, dd = ee["kind"], ee["dd"]
         hop += 1
-        base = {"k": k, "dd": dd, "wrap": o["wrap"], "inl": ee["inline"], "kwo": ee["kwonly"], "ft": ee["ftype"],
+        base = {"k": k, "dd": dd, "wrap": o["wrap"], "xo": o.get("xo", ""), "inl": ee["inline"], "kwo": ee["kwonly"], "ft": ee["ftype"],
                 "ind": o["indent"], "hop": hop, "prev": prev, "tb": meta["table"], "n": len(cur["params"]),
                 "ret": micro_ret(cur["ret"]), "step": "parse"}
         b = cur
@@ -409,10 +409,16 @@ def build(prop, thorough, rnd):
         ts = ts[:4]
     scs = []
 
+    XO = {"class": ("call", "nobases", "deco", "dictbase"), "function": ("septab",), "method": ("septab",), "argparse": ("wrapdesc",)}
+
     def add(table, air, actions, files=False):
         if any(a[0] == "emit" and a[1] == "argparse" for a in actions) and not argparse_domain(air):
             return
-        scs.append(_sc(len(scs), table, air, actions, files))
+        i = len(scs)
+        if i % 3 == 1:
+            # every third scenario has one further emitter option away from its default: it must not show in the description
+            actions = [((a[0], a[1], dict(a[2], xo=XO[a[1]][(i // 3) % len(XO[a[1]])])) if a[0] == "emit" and a[1] in XO else a) for a in actions]
+        scs.append(_sc(i, table, air, actions, files))
 
     def roundtrips(kinds, view=False, files_every=0):
         cnt = 0
